@@ -31,8 +31,8 @@ type ub struct {
 	k int64
 }
 
-func top() bnd                { return bnd{lo: -inf, hiK: inf, top: true} }
-func constB(k int64) bnd      { return bnd{lo: k, hiK: k} }
+func top() bnd           { return bnd{lo: -inf, hiK: inf, top: true} }
+func constB(k int64) bnd { return bnd{lo: k, hiK: k} }
 func (b bnd) String() string {
 	lo := fmt.Sprint(b.lo)
 	if b.lo <= -inf {
@@ -58,8 +58,8 @@ type boundsEngine struct {
 	// the block of the index/slice expression being judged: NaN-ness is a
 	// property of a value, so any ordered comparison that is true on the way
 	// to the use proves its operands non-NaN for every fact about them
-	useBlock *ssa.BasicBlock
-	nanBusy  map[ssa.Value]bool
+	useBlock     *ssa.BasicBlock
+	nanBusy      map[ssa.Value]bool
 	assumeNotNaN map[ssa.Value]int
 }
 
@@ -1141,7 +1141,6 @@ func (e *boundsEngine) refineCell(a *ssa.Alloc, r bnd, at *ssa.BasicBlock) bnd {
 	return r
 }
 
-
 // orderedBy: a dominating comparison establishes small < big (gap 1 for
 // integral values) or small <= big (gap 0) at block at.
 func (e *boundsEngine) orderedBy(small, big ssa.Value, at *ssa.BasicBlock) (int64, bool) {
@@ -1213,7 +1212,6 @@ func (e *boundsEngine) orderedBy(small, big ssa.Value, at *ssa.BasicBlock) (int6
 	}
 	return 0, false
 }
-
 
 // notNaN: the float value v cannot be NaN when block use executes: it is an
 // integer conversion / constant / len; or the result of rounding a non-NaN;
